@@ -255,6 +255,18 @@ def gen_registry():
         if [unicodedata.decimal(chr(z + i), None) for i in range(10)] != list(range(10)):
             raise ExtractionError('decimal digits from U+%04X are not a contiguous run of ten' % z)
 
+    # --- utils.str.perlReToPythonRe: brace tables; the interpreter's re.escape specials and single-letter re flags
+    openers = literal(find_assign(ustr, '_openers'), '_openers'); closers = literal(find_assign(ustr, '_closers'), '_closers')
+    if not (isinstance(openers, str) and isinstance(closers, str) and len(openers) == len(closers)):
+        raise ExtractionError('_openers/_closers: expected two strings of equal length')
+    p2p = find_func(ustr, 'perlReToPythonRe')
+    matcher_fmt = [n.left.value for n in ast.walk(p2p) if isinstance(n, ast.BinOp) and isinstance(n.op, ast.Mod)
+                   and isinstance(n.left, ast.Constant) and isinstance(n.left.value, str) and '%s' in n.left.value and '(' in n.left.value]
+    matcher_fmt = _one(matcher_fmt, "perlReToPythonRe matcher r'm?%s(...)%s(.*)'")
+    import re as _re, string as _string
+    re_specials = ''.join(chr(c) for c in range(128) if _re.escape(chr(c)) != chr(c))
+    re_flag_letters = ''.join(c for c in _string.ascii_uppercase if isinstance(getattr(_re, c, None), int))
+
     # --- finite tables of conf.py validators
     oss_tables = []
     for cdef in sorted((n for n in ast.walk(conf) if isinstance(n, ast.ClassDef)), key=lambda c: c.lineno):
@@ -383,6 +395,11 @@ def gen_registry():
     d('ircutils.isChannel: default chantypes', 'chanTypes', 'Py.Str', lstr(chantypes))
     d('ircutils.isChannel: default channellen', 'chanLen', 'Nat', str(int(channellen)))
     d('ircutils.isChannel: source of the returned expression', 'isChannelSrc', 'String', lstring(isch_src))
+    d('utils.str._openers', 'reOpeners', 'Py.Str', lstr(openers))
+    d('utils.str._closers', 'reClosers', 'Py.Str', lstr(closers))
+    d('perlReToPythonRe: the format of the matcher regexp', 'reMatcherFmt', 'String', lstring(matcher_fmt))
+    d('ASCII characters re.escape puts a backslash before (this interpreter)', 'reEscapeSpecials', 'Py.Str', lstr(re_specials))
+    d('upper-case letters that name an integer flag of the re module (this interpreter)', 'reFlagLetters', 'Py.Str', lstr(re_flag_letters))
     d('code points of the non-ASCII characters with decimal digit value 0 (each followed by its 1..9) in this interpreter', 'decimalZeros', 'List Nat', llist(str(z) for z in zeros))
     d('validStrings of the conf.py subclasses of OnlySomeStrings', 'onlySomeStringsTables', 'List (String × List Py.Str)',
       llist('(%s, %s)' % (lstring(n), llist(lstr(x) for x in t)) for n, t in oss_tables))
